@@ -221,6 +221,9 @@ pub struct Outcome {
     pub preempted_at: std::collections::BTreeMap<String, u64>,
     pub trail: Vec<(usize, usize)>,
     pub sent: Vec<Vec<i64>>,
+    /// data whose delivery call had returned before the failing member began to deliver its Error
+    /// (all data, if no member fails): these are owed to the sink
+    pub owed: Vec<i64>,
 }
 
 fn member_value(m: usize, i: usize) -> i64 {
@@ -233,6 +236,8 @@ pub fn run_one(scn: &Scenario, strategy: Strategy) -> Outcome {
     let rec = Rec::new();
     let panic_slot: Arc<Mutex<Option<(String, String)>>> = Arc::new(Mutex::new(None));
     let sent: Arc<Mutex<Vec<Vec<i64>>>> = Arc::new(Mutex::new(vec![vec![]; k]));
+    // (value, delivery returned?) in send order, and whether the failure has begun
+    let done: Arc<Mutex<(Vec<i64>, bool)>> = Arc::new(Mutex::new((vec![], false)));
     let direct = matches!(scn.shape, Shape::TakeDirect(_));
     // members: for TakeDirect there is one source, shared by all delivering threads
     let n_sources = if direct { 1 } else { k };
@@ -297,6 +302,7 @@ pub fn run_one(scn: &Scenario, strategy: Strategy) -> Outcome {
         let own_greet = scn.own_greet && !direct;
         let panic_slot = Arc::clone(&panic_slot);
         let sent = Arc::clone(&sent);
+        let done = Arc::clone(&done);
         let send_terminal = !direct;
         handles.push(std::thread::spawn(move || {
             QUIET_PANICS.with(|q| q.set(true));
@@ -316,9 +322,14 @@ pub fn run_one(scn: &Scenario, strategy: Strategy) -> Outcome {
                             let v = member_value(t, i);
                             sent.lock().unwrap()[t].push(v);
                             sink(Message::Data(v));
+                            let mut d = done.lock().unwrap();
+                            if !d.1 {
+                                d.0.push(v);
+                            }
                         }
                         if send_terminal && !m.stopped.load(Ordering::SeqCst) {
                             if fails {
+                                done.lock().unwrap().1 = true;
                                 sink(Message::Error(Arc::new(TErr)));
                             } else {
                                 sink(Message::Terminate);
@@ -408,6 +419,7 @@ pub fn run_one(scn: &Scenario, strategy: Strategy) -> Outcome {
     let evs = rec.lock().evs.clone();
     let panic = panic_slot.lock().unwrap().clone();
     let sent = sent.lock().unwrap().clone();
+    let owed = done.lock().unwrap().0.clone();
     Outcome {
         evs,
         panic,
@@ -419,6 +431,7 @@ pub fn run_one(scn: &Scenario, strategy: Strategy) -> Outcome {
         preempted_at: g.preempted_at.clone(),
         trail,
         sent,
+        owed,
     }
 }
 
@@ -456,8 +469,24 @@ pub fn judge(scn: &Scenario, o: &Outcome) -> Option<(&'static str, String)> {
                 }
                 got.sort();
                 want.sort();
-                if got != want {
-                    return Some(("datum-lost-or-duplicated", format!("sent {:?}, sink received {:?}", want, got)));
+                if scn.fail.is_none() {
+                    if got != want {
+                        return Some(("datum-lost-or-duplicated", format!("sent {:?}, sink received {:?}", want, got)));
+                    }
+                } else {
+                    // a member fails: what the others send once the failure has begun is not owed to
+                    // the sink any more (it may be relayed or dropped), everything delivered before
+                    // is; nothing is duplicated or invented
+                    let mut dup = got.clone();
+                    dup.dedup();
+                    let invented = got.iter().any(|v| !want.contains(v));
+                    let lost: Vec<i64> = o.owed.iter().copied().filter(|v| !got.contains(v)).collect();
+                    if dup.len() != got.len() || invented || !lost.is_empty() {
+                        return Some((
+                            "datum-lost-or-duplicated",
+                            format!("sent {:?} (delivered before the failure began: {:?}), sink received {:?}", want, o.owed, got),
+                        ));
+                    }
                 }
             } else {
                 for e in &data {
